@@ -271,3 +271,29 @@ func (c *Ctx) Implementers(iface *types.Interface) []types.Type {
 	}
 	return out
 }
+
+// FuncAtLine names the innermost module function whose syntax spans file:line ("" if none).
+func (c *Ctx) FuncAtLine(file string, line int) string {
+	best := ""
+	bestSpan := 1 << 30
+	for _, fn := range c.ModFuncs {
+		syn := fn.Syntax()
+		if syn == nil {
+			continue
+		}
+		a, b := c.Fset.Position(syn.Pos()), c.Fset.Position(syn.End())
+		f := strings.TrimPrefix(a.Filename, c.Dir+"/")
+		if f != file || line < a.Line || line > b.Line {
+			continue
+		}
+		if span := b.Line - a.Line; span < bestSpan {
+			// closures are reported under their outermost parent, as the reports do
+			p := fn
+			for p.Parent() != nil {
+				p = p.Parent()
+			}
+			best, bestSpan = c.FuncName(p), span
+		}
+	}
+	return best
+}
